@@ -13,7 +13,13 @@ open UpfVerif UpfVerif.Driver
 
 /-- stateless evaluators, by function name -/
 def evalT (fn : String) (args : List String) (impl : String) : Option Verdict :=
-  if fn.startsWith "drv." then Drv.eval fn args impl else
+  if fn.startsWith "drv." then
+    -- C07: whatever the IE, the driver's walk over it must not fault (in the event loop a fault ends the process)
+    (Drv.eval fn args impl).map fun v =>
+      if impl.startsWith "panic" then
+        { v with propFails := v.propFails ++ [s!"C07 {fn}: the gtp5g driver faulted while translating this rule IE; in the event loop this takes the UPF down"] }
+      else v
+  else
   if fn.startsWith "cfg." then ConfigD.eval fn args impl else
   if fn.startsWith "stop." || fn.startsWith "conc." || fn.startsWith "wedge." then ConcD.eval fn args impl else
   match fn with
@@ -21,6 +27,11 @@ def evalT (fn : String) (args : List String) (impl : String) : Option Verdict :=
   | "fd.parse" => evalFlowDesc args impl
   | "fd.rule" => evalFlowRule args impl
   | "fd.pack" => evalFlowPack args impl
+  | "drvmal" =>
+    -- a damaged rule IE through the real gtp5g driver: only "no fault" is claimed
+    some { model := impl,
+           propFails := if impl.startsWith "panic" then
+             [s!"C07 the gtp5g driver faulted on a damaged {args.headD "?"} IE ({(args.getD 2 "").length / 2} octets); in the event loop this takes the UPF down"] else [] }
   | "mal.send" =>
     some { model := "alive",
            propFails := if impl == "alive" then [] else
